@@ -1,10 +1,808 @@
 /-
-  Model module `Format` (driver op `fmt`). Import-free apart from RsjModel.* modules.
+  Model of `rsjsonnet-lang/src/program/eval/format.rs` (std.format / the `%` operator),
+  driver op `fmt`.  Import-free apart from RsjModel.Util.
+
+  Strings are `List Char` (Rust `&str`; every byte-length the code takes is of an
+  ASCII string, so byte length = character count there; the one place where the two
+  differ — the field padding in `do_std_format_codes_array_3/object_2` — counts chars).
+  Numbers are IEEE-754 bit patterns (`Nat` < 2^64, always finite in Jsonnet); the model
+  never uses `Float`: sign, zero-ness and the integer part are computed from the bits.
+
+  Trusted base (parameters of the model, `Host`): the Rust formatter `{:.p$}` / `{:.p$e}`,
+  `f64::to_string` of an integer-valued double >= 2^53, `f64::log10`, and the number
+  printer used by `%s`.  The harness supplies exactly the strings Rust produced.
 -/
 import RsjModel.Util
 namespace Rsj.Format
 
-/-- `fmt <args...>` : one canonical answer line, or `none` for a malformed request. -/
-def handle (_args : List String) : Option String := none
+/-! ## Format codes -/
+
+inductive Conv where
+  | dec | oct | hexL | hexU | expL | expU | fltL | fltU | gL | gU | chr | str | pct
+deriving Repr, DecidableEq
+
+/-- `FieldWidth` -/
+inductive FW where
+  | inline (n : Nat)
+  | ext
+deriving Repr, DecidableEq
+
+/-- `CFlags` -/
+structure Flags where
+  alt : Bool := false
+  zero : Bool := false
+  left : Bool := false
+  blank : Bool := false
+  plus : Bool := false
+deriving Repr, DecidableEq
+
+/-- `FormatCode` -/
+structure Code where
+  mkey : Option (List Char)
+  flags : Flags
+  fw : Option FW
+  prec : Option FW
+  lenMod : Option Char
+  conv : Conv
+deriving Repr, DecidableEq
+
+/-- `FormatPart` -/
+inductive Part where
+  | lit (s : List Char)
+  | code (c : Code)
+deriving Repr, DecidableEq
+
+/-- `FormatCode::uses_prec` -/
+def usesPrec : Conv → Bool
+  | .chr | .str | .pct => false
+  | _ => true
+
+/-! ## `parse_format_codes` -/
+
+/-- Errors of the format-string parser (`fuel` is the explicit out-of-fuel outcome of
+    the model's loop; `C19_parse_total` proves it never occurs). -/
+inductive PErr where
+  | truncated | widthTooLarge | precTooLarge | missingPrecDigits
+  | invalidConv (c : Char)
+  | fuel
+deriving Repr, DecidableEq
+
+/-- `str::find(c)` + split: text before the first `c` and text after it. -/
+def splitAt1 (c : Char) : List Char → Option (List Char × List Char)
+  | [] => none
+  | x :: xs =>
+    if x = c then some ([], xs)
+    else match splitAt1 c xs with
+      | none => none
+      | some (a, b) => some (x :: a, b)
+
+/-- `parse_format_mkey` -/
+def parseMkey (rem : List Char) : Except PErr (Option (List Char) × List Char) :=
+  match rem with
+  | [] => .ok (none, [])
+  | c :: cont =>
+    if c = '(' then
+      match splitAt1 ')' cont with
+      | none => .error .truncated
+      | some (key, rest) => .ok (some key, rest)
+    else .ok (none, c :: cont)
+
+/-- `parse_format_cflags` -/
+def parseFlags : List Char → Flags → Flags × List Char
+  | [], f => (f, [])
+  | c :: r, f =>
+    if c = '#' then parseFlags r { f with alt := true }
+    else if c = '0' then parseFlags r { f with zero := true }
+    else if c = '-' then parseFlags r { f with left := true }
+    else if c = ' ' then parseFlags r { f with blank := true }
+    else if c = '+' then parseFlags r { f with plus := true }
+    else (f, c :: r)
+
+def isDigit (c : Char) : Bool := 48 ≤ c.toNat && c.toNat ≤ 57
+
+/-- the `while bytes.get(i).is_some_and(u8::is_ascii_digit)` loops -/
+def takeDigits : List Char → List Char × List Char
+  | [] => ([], [])
+  | c :: cs =>
+    if isDigit c then ((c :: (takeDigits cs).1), (takeDigits cs).2)
+    else ([], c :: cs)
+
+def digitsVal (ds : List Char) : Nat := ds.foldl (fun a c => a * 10 + (c.toNat - 48)) 0
+
+def U32_LIMIT : Nat := 4294967296
+
+/-- `parse_format_field_width` (`str::parse::<u32>` fails exactly on overflow here) -/
+def parseWidth (rem : List Char) : Except PErr (Option FW × List Char) :=
+  match rem with
+  | [] => .ok (none, [])
+  | c :: r =>
+    if c = '*' then .ok (some .ext, r)
+    else
+      let d := takeDigits (c :: r)
+      if d.1 = [] then .ok (none, c :: r)
+      else if digitsVal d.1 ≥ U32_LIMIT then .error .widthTooLarge
+      else .ok (some (.inline (digitsVal d.1)), d.2)
+
+/-- `parse_format_prec` -/
+def parsePrec (rem : List Char) : Except PErr (Option FW × List Char) :=
+  match rem with
+  | [] => .ok (none, [])
+  | c :: r =>
+    if c = '.' then
+      match r with
+      | [] => .error .truncated
+      | c2 :: r2 =>
+        if c2 = '*' then .ok (some .ext, r2)
+        else
+          let d := takeDigits (c2 :: r2)
+          if d.1 = [] then .error .missingPrecDigits
+          else if digitsVal d.1 ≥ U32_LIMIT then .error .precTooLarge
+          else .ok (some (.inline (digitsVal d.1)), d.2)
+    else .ok (none, c :: r)
+
+/-- `parse_format_length_modifier` -/
+def parseLenMod (rem : List Char) : Option Char × List Char :=
+  match rem with
+  | [] => (none, [])
+  | c :: r => if c = 'h' ∨ c = 'l' ∨ c = 'L' then (some c, r) else (none, c :: r)
+
+def convOf (c : Char) : Option Conv :=
+  if c = 'd' ∨ c = 'i' ∨ c = 'u' then some .dec
+  else if c = 'o' then some .oct
+  else if c = 'x' then some .hexL
+  else if c = 'X' then some .hexU
+  else if c = 'e' then some .expL
+  else if c = 'E' then some .expU
+  else if c = 'f' then some .fltL
+  else if c = 'F' then some .fltU
+  else if c = 'g' then some .gL
+  else if c = 'G' then some .gU
+  else if c = 'c' then some .chr
+  else if c = 's' then some .str
+  else if c = '%' then some .pct
+  else none
+
+/-- `parse_format_conv_type` -/
+def parseConv (rem : List Char) : Except PErr (Conv × List Char) :=
+  match rem with
+  | [] => .error .truncated
+  | c :: r =>
+    match convOf c with
+    | some k => .ok (k, r)
+    | none => .error (.invalidConv c)
+
+/-- One directive, after its `%`. -/
+def parseCode (rem : List Char) : Except PErr (Code × List Char) :=
+  match parseMkey rem with
+  | .error e => .error e
+  | .ok (mkey, r1) =>
+    let fl := parseFlags r1 {}
+    match parseWidth fl.2 with
+    | .error e => .error e
+    | .ok (fw, r3) =>
+      match parsePrec r3 with
+      | .error e => .error e
+      | .ok (prec, r4) =>
+        let lm := parseLenMod r4
+        match parseConv lm.2 with
+        | .error e => .error e
+        | .ok (conv, r6) =>
+          .ok ({ mkey := mkey, flags := fl.1, fw := fw, prec := prec, lenMod := lm.1, conv := conv }, r6)
+
+/-- The `while !rem.is_empty()` loop of `parse_format_codes`, with explicit fuel. -/
+def parseParts : Nat → List Char → Except PErr (List Part)
+  | 0, _ => .error .fuel
+  | fuel + 1, rem =>
+    if rem = [] then .ok []
+    else
+      match splitAt1 '%' rem with
+      | none => .ok [.lit rem]
+      | some (pre, rest) =>
+        match parseCode rest with
+        | .error e => .error e
+        | .ok (c, rest') =>
+          match parseParts fuel rest' with
+          | .error e => .error e
+          | .ok ps => .ok ((if pre = [] then [] else [Part.lit pre]) ++ Part.code c :: ps)
+
+/-- `parse_format_codes` -/
+def parseFormat (s : List Char) : Except PErr (List Part) := parseParts (s.length + 1) s
+
+/-! ## Values -/
+
+/-- A fully evaluated Jsonnet value as the formatter sees it.  `other` covers null,
+    booleans, arrays and objects: their type name (for error messages) and their
+    `std.toString` rendering (for `%s`), both supplied by the driver. -/
+inductive Val where
+  | num (bits : Nat)
+  | str (s : List Char)
+  | other (ty : String) (rendered : List Char)
+deriving Repr, DecidableEq
+
+/-- `EvalErrorValueType::from_value(..).to_str()` -/
+def typeOf : Val → String
+  | .num _ => "number"
+  | .str _ => "string"
+  | .other ty _ => ty
+
+def TWO63 : Nat := 9223372036854775808
+def TWO52 : Nat := 4503599627370496
+def TWO53 : Nat := 9007199254740992
+
+def signBit (b : Nat) : Bool := decide (b ≥ TWO63)
+def absBits (b : Nat) : Nat := b % TWO63
+def isZero (b : Nat) : Bool := absBits b = 0
+
+/-- `|value.trunc()|` as an exact integer, from the bit pattern. -/
+def truncAbs (b : Nat) : Nat :=
+  let e := absBits b / TWO52
+  let m := if e = 0 then b % TWO52 else b % TWO52 + TWO52
+  let e' := if e = 0 then 1 else e
+  if e' ≥ 1075 then m * 2 ^ (e' - 1075) else m / 2 ^ (1075 - e')
+
+/-- `value.trunc().is_sign_negative() && value.trunc() != 0.0` -/
+def isNegInt (b : Nat) : Bool := signBit b && truncAbs b != 0
+
+/-- `value.is_sign_negative() && value != 0.0` -/
+def isNegFlt (b : Nat) : Bool := signBit b && !isZero b
+
+/-- `float::try_to_u32` -/
+def tryU32 (b : Nat) : Option Nat :=
+  if isNegInt b then none
+  else if truncAbs b < U32_LIMIT then some (truncAbs b) else none
+
+/-! ## Errors and the host formatter -/
+
+inductive Err where
+  | parse (e : PErr)
+  | notEnough (got : Nat)
+  | tooMany (expected got : Nat)
+  | precNotNumber (ty : String)
+  | precInvalid
+  | widthNotNumber (ty : String)
+  | widthInvalid
+  | needNumber (conv : Char) (ty : String)
+  | charLen (n : Nat)
+  | charBadCodepoint
+  | charBadType (ty : String)
+  | objStarWidth | objStarPrec | objNeedKey
+  | objMissingField (key : List Char)
+  | fmtNotString (ty : String)
+  /-- a panic inside format.rs: the host formatter refusing a precision above 65535,
+      or an `unwrap()` on the host's `{:e}` output failing -/
+  | hostPanic (site : Nat)
+  /-- driver-level: the request did not supply this host string -/
+  | needHost (kind : Char) (bits : Nat) (prec : Nat)
+deriving Repr, DecidableEq
+
+/-- The trusted host digit generators (all on `|value|`, keyed by its bit pattern). -/
+structure Host where
+  /-- `format!("{v:.p$}")` -/
+  fixed : Nat → Nat → Option (List Char)
+  /-- `format!("{v:.p$e}")` -/
+  exp : Nat → Nat → Option (List Char)
+  /-- `v.trunc().to_string()` (consulted only for |trunc v| ≥ 2^53) -/
+  disp : Nat → Option (List Char)
+  /-- `v.log10().floor()` -/
+  log10floor : Nat → Option Int
+  /-- the number printer behind `%s` (keyed by the full bit pattern, sign included) -/
+  numStr : Nat → Option (List Char)
+
+/-- Largest precision the Rust formatter accepts (`u16::MAX`); above it, it panics. -/
+def HOST_LIMIT : Nat := 65535
+/-- `MAX_HOST_PREC` -/
+def MAX_HOST_PREC : Nat := 1100
+
+def callFixed (h : Host) (ab p : Nat) : Except Err (List Char) :=
+  if p > HOST_LIMIT then .error (.hostPanic 0)
+  else match h.fixed ab p with
+    | some s => .ok s
+    | none => .error (.needHost 'F' ab p)
+
+def callExp (h : Host) (ab p : Nat) : Except Err (List Char) :=
+  if p > HOST_LIMIT then .error (.hostPanic 0)
+  else match h.exp ab p with
+    | some s => .ok s
+    | none => .error (.needHost 'E' ab p)
+
+def callLog (h : Host) (ab : Nat) : Except Err Int :=
+  match h.log10floor ab with
+  | some e => .ok e
+  | none => .error (.needHost 'L' ab 0)
+
+/-! ## Digit loops -/
+
+def lowerNum (d : Nat) : Char := hexDigit d
+def upperNum (d : Nat) : Char := if d < 10 then Char.ofNat (48 + d) else Char.ofNat (55 + d)
+
+/-- `while mag != 0 { digit = mag % radix; insert at front; mag = trunc(mag / radix) }`
+    (exact in binary floating point on integer-valued doubles).  Fuel `m` suffices
+    (`digitLoop_spec`). -/
+def digitLoop (radix : Nat) (num : Nat → Char) : Nat → Nat → List Char → List Char
+  | 0, _, acc => acc
+  | fuel + 1, m, acc =>
+    if m = 0 then acc else digitLoop radix num fuel (m / radix) (num (m % radix) :: acc)
+
+def natDigits (radix : Nat) (num : Nat → Char) (m : Nat) : List Char :=
+  digitLoop radix num m m []
+
+/-- `value_abs.to_string()` of an integer-valued double: exact decimal digits below
+    2^53 (contract of the shortest-round-trip printer, validated by the differential
+    run on every case), the host's string above. -/
+def displayInt (h : Host) (ab : Nat) : Except Err (List Char) :=
+  let m := truncAbs ab
+  if m = 0 then .ok ['0']
+  else if m < TWO53 then .ok (natDigits 10 lowerNum m)
+  else match h.disp ab with
+    | some s => .ok s
+    | none => .error (.needHost 'D' ab 0)
+
+/-! ## Rendering -/
+
+def signStr (neg plus blank : Bool) : List Char :=
+  if neg then ['-'] else if plus then ['+'] else if blank then [' '] else []
+
+/-- `decorate_digits` -/
+def decorate (digits : List Char) (neg : Bool) (minChars minDigits : Nat) (plus blank : Bool) :
+    List Char :=
+  let s := signStr neg plus blank
+  let pad := max (minDigits - digits.length) (minChars - (s.length + digits.length))
+  s ++ List.replicate pad '0' ++ digits
+
+/-- digits part of `render_int` (radix 8, prefix "0" with `#`) -/
+def octDigits (m : Nat) (zeroPrefix : List Char) : List Char :=
+  if m = 0 then ['0'] else zeroPrefix ++ natDigits 8 lowerNum m
+
+/-- `render_int` -/
+def renderInt (neg : Bool) (m minChars minDigits : Nat) (blank plus : Bool)
+    (zeroPrefix : List Char) : List Char :=
+  let ds := octDigits m zeroPrefix
+  let res := signStr neg plus blank
+  let pad := max (minDigits - ds.length) (minChars - (res.length + ds.length))
+  res ++ List.replicate pad '0' ++ ds
+
+def hexDigits (m : Nat) (capitals : Bool) : List Char :=
+  if m = 0 then ['0'] else natDigits 16 (if capitals then upperNum else lowerNum) m
+
+def hexPrefix (addZerox capitals : Bool) : List Char :=
+  if addZerox then (if capitals then ['0', 'X'] else ['0', 'x']) else []
+
+/-- `render_hex` -/
+def renderHex (b minChars minDigits : Nat) (blank plus addZerox capitals : Bool) : List Char :=
+  let ds := hexDigits (truncAbs b) capitals
+  let res := signStr (isNegInt b) plus blank ++ hexPrefix addZerox capitals
+  let pad := max (minDigits - ds.length) (minChars - (res.length + ds.length))
+  res ++ List.replicate pad '0' ++ ds
+
+/-- `trim_end_matches('0')` -/
+def trimEnd0 (s : List Char) : List Char := (s.reverse.dropWhile (· = '0')).reverse
+
+/-- `strip_suffix('.').unwrap_or(..)` -/
+def stripDot (s : List Char) : List Char := if s.getLast? = some '.' then s.dropLast else s
+
+def trimZeros (s : List Char) (ensurePt : Bool) : List Char :=
+  if ensurePt then trimEnd0 s else stripDot (trimEnd0 s)
+
+/-- `render_float_def` -/
+def renderFloatDef (h : Host) (b prec zp : Nat) (plus blank ensurePt trimZ : Bool) :
+    Except Err (List Char) :=
+  let hp := min prec MAX_HOST_PREC
+  match callFixed h (absBits b) hp with
+  | .error e => .error e
+  | .ok d0 =>
+    let d1 := d0 ++ List.replicate (prec - hp) '0'
+    let d2 :=
+      if prec = 0 && ensurePt then d1 ++ ['.']
+      else if prec != 0 && trimZ then trimZeros d1 ensurePt
+      else d1
+    .ok (decorate d2 (isNegFlt b) zp 0 plus blank)
+
+/-- `str::parse::<i32>()`: optional sign, at least one digit, only digits, in range. -/
+def parseI32 (s : List Char) : Option Int :=
+  let body (ds : List Char) (neg : Bool) : Option Int :=
+    if ds = [] ∨ !ds.all isDigit then none
+    else
+      let v : Int := if neg then -(digitsVal ds : Int) else (digitsVal ds : Int)
+      if v < -2147483648 ∨ v > 2147483647 then none else some v
+  match s with
+  | [] => none
+  | c :: r => if c = '-' then body r true else if c = '+' then body r false else body (c :: r) false
+
+/-- `{exp_int:+03}` -/
+def fmtExpInt (e : Int) : List Char :=
+  let ds := if e.natAbs = 0 then ['0'] else natDigits 10 lowerNum e.natAbs
+  (if e < 0 then '-' else '+') :: (if ds.length < 2 then '0' :: ds else ds)
+
+/-- `render_float_exp` -/
+def renderFloatExp (h : Host) (b prec zp : Nat) (plus blank ensurePt trimZ upper : Bool) :
+    Except Err (List Char) :=
+  let hp := min prec MAX_HOST_PREC
+  match callExp h (absBits b) hp with
+  | .error e => .error e
+  | .ok ds =>
+    match splitAt1 'e' ds with
+    | none => .error (.hostPanic 1)      -- `.position(..).unwrap()`
+    | some (mant, expS) =>
+      let mant1 := mant ++ List.replicate (prec - hp) '0'
+      let mant2 := if prec != 0 && trimZ then trimZeros mant1 ensurePt else mant1
+      match parseI32 expS with
+      | none => .error (.hostPanic 2)    -- `.parse::<i32>().unwrap()`
+      | some e =>
+        let dot := if prec = 0 && ensurePt then ['.'] else []
+        let digits := mant2 ++ dot ++ [if upper then 'E' else 'e'] ++ fmtExpInt e
+        .ok (decorate digits (isNegFlt b) zp 0 plus blank)
+
+/-- the `%g` / `%G` arm of `do_std_format_code` -/
+def renderFloatG (h : Host) (b fpprec zp : Nat) (plus blank alt upper : Bool) :
+    Except Err (List Char) :=
+  match (if isZero b then .ok 0 else callLog h (absBits b)) with
+  | .error e => .error e
+  | .ok exponent =>
+    if exponent < -4 ∨ (exponent ≥ 0 ∧ exponent ≥ (fpprec : Int)) then
+      renderFloatExp h b (max fpprec 1 - 1) zp plus blank alt (!alt) upper
+    else
+      match (if truncAbs b = 0 then .ok 1
+             else match displayInt h (absBits b) with
+               | .ok d => .ok d.length
+               | .error e => .error e : Except Err Nat) with
+      | .error e => .error e
+      | .ok dbp => renderFloatDef h b (fpprec - dbp) zp plus blank alt (!alt)
+
+def validScalar (n : Nat) : Bool := n < 0xD800 || (0xDFFF < n && n < 0x110000)
+
+def needNum (k : Char) (v : Val) : Except Err Nat :=
+  match v with
+  | .num b => .ok b
+  | v => .error (.needNumber k (typeOf v))
+
+/-- `do_std_format_code` (`fw`, `prec`: the resolved numbers; `Percent` never gets here) -/
+def renderCode (h : Host) (c : Code) (fw prec : Nat) (v : Val) : Except Err (List Char) :=
+  let fpprec := if c.prec.isSome then prec else 6
+  let iprec := if c.prec.isSome then prec else 0
+  let zp := if c.flags.zero && !c.flags.left then fw else 0
+  match c.conv with
+  | .dec =>
+    match needNum 'd' v with
+    | .error e => .error e
+    | .ok b =>
+      match displayInt h (absBits b) with
+      | .error e => .error e
+      | .ok ds => .ok (decorate ds (isNegInt b) zp iprec c.flags.plus c.flags.blank)
+  | .oct =>
+    match needNum 'o' v with
+    | .error e => .error e
+    | .ok b =>
+      .ok (renderInt (isNegInt b) (truncAbs b) zp iprec c.flags.blank c.flags.plus
+            (if c.flags.alt then ['0'] else []))
+  | .hexL =>
+    match needNum 'x' v with
+    | .error e => .error e
+    | .ok b => .ok (renderHex b zp iprec c.flags.blank c.flags.plus c.flags.alt false)
+  | .hexU =>
+    match needNum 'x' v with
+    | .error e => .error e
+    | .ok b => .ok (renderHex b zp iprec c.flags.blank c.flags.plus c.flags.alt true)
+  | .expL =>
+    match needNum 'e' v with
+    | .error e => .error e
+    | .ok b => renderFloatExp h b fpprec zp c.flags.plus c.flags.blank c.flags.alt false false
+  | .expU =>
+    match needNum 'e' v with
+    | .error e => .error e
+    | .ok b => renderFloatExp h b fpprec zp c.flags.plus c.flags.blank c.flags.alt false true
+  | .fltL =>
+    match needNum 'f' v with
+    | .error e => .error e
+    | .ok b => renderFloatDef h b fpprec zp c.flags.plus c.flags.blank c.flags.alt false
+  | .fltU =>
+    match needNum 'f' v with
+    | .error e => .error e
+    | .ok b => renderFloatDef h b fpprec zp c.flags.plus c.flags.blank c.flags.alt false
+  | .gL =>
+    match needNum 'g' v with
+    | .error e => .error e
+    | .ok b => renderFloatG h b fpprec zp c.flags.plus c.flags.blank c.flags.alt false
+  | .gU =>
+    match needNum 'g' v with
+    | .error e => .error e
+    | .ok b => renderFloatG h b fpprec zp c.flags.plus c.flags.blank c.flags.alt true
+  | .chr =>
+    match v with
+    | .str s => if s.length ≠ 1 then .error (.charLen s.length) else .ok s
+    | .num b =>
+      match tryU32 b with
+      | none => .error .charBadCodepoint
+      | some n => if validScalar n then .ok [Char.ofNat n] else .error .charBadCodepoint
+    | .other ty _ => .error (.charBadType ty)
+  | .str =>
+    match v with
+    | .str s => .ok s
+    | .other _ r => .ok r
+    | .num b =>
+      match h.numStr b with
+      | some s => .ok s
+      | none => .error (.needHost 'S' b 0)
+  | .pct => .error (.hostPanic 3)        -- `unreachable!()`
+
+/-- The padding step of `do_std_format_codes_array_3` / `object_2`:
+    `s.chars().count()` against the width. -/
+def padField (left : Bool) (fw : Nat) (s : List Char) : List Char :=
+  if s.length < fw then
+    if left then s ++ List.replicate (fw - s.length) ' '
+    else List.replicate (fw - s.length) ' ' ++ s
+  else s
+
+/-! ## Argument consumption: arrays -/
+
+/-- `WidthTmp` -/
+inductive WT where
+  | none
+  | inline (n : Nat)
+  | val (v : Val)
+deriving Repr, DecidableEq
+
+/-- the `match code.fw` / `match code.prec` of `do_std_format_codes_array_1` -/
+def takeW (spec : Option FW) (arr : List Val) (i : Nat) : Except Err (WT × Nat) :=
+  match spec with
+  | none => .ok (.none, i)
+  | some (.inline v) => .ok (.inline v, i)
+  | some .ext =>
+    match arr[i]? with
+    | some v => .ok (.val v, i + 1)
+    | none => .error (.notEnough arr.length)
+
+/-- the value popped in `array_2` for a precision (`PushU32AsValue(v)` yields `v`) -/
+def evalPrec (w : WT) : Except Err Nat :=
+  match w with
+  | .none => .ok 0
+  | .inline v => .ok v
+  | .val (.num b) => match tryU32 b with
+    | some n => .ok n
+    | none => .error .precInvalid
+  | .val v => .error (.precNotNumber (typeOf v))
+
+def evalWidth (w : WT) : Except Err Nat :=
+  match w with
+  | .none => .ok 0
+  | .inline v => .ok v
+  | .val (.num b) => match tryU32 b with
+    | some n => .ok n
+    | none => .error .widthInvalid
+  | .val v => .error (.widthNotNumber (typeOf v))
+
+/-- One directive of the array machine (`array_1` → `array_2` → `StdFormatCode` →
+    `array_3`): returns the padded field and the new `array_i`. -/
+def stepArray (h : Host) (c : Code) (arr : List Val) (i : Nat) : Except Err (List Char × Nat) :=
+  match takeW c.fw arr i with
+  | .error e => .error e
+  | .ok (fwT, i1) =>
+    match takeW c.prec arr i1 with
+    | .error e => .error e
+    | .ok (precT, i2) =>
+      match (if c.prec.isSome && usesPrec c.conv then evalPrec precT else .ok 0) with
+      | .error e => .error e
+      | .ok prec =>
+        match (if c.fw.isSome then evalWidth fwT else .ok 0) with
+        | .error e => .error e
+        | .ok fw =>
+          if c.conv = .pct then .ok (padField c.flags.left fw ['%'], i2)
+          else
+            match arr[i2]? with
+            | none => .error (.notEnough arr.length)
+            | some item =>
+              match renderCode h c fw prec item with
+              | .error e => .error e
+              | .ok s => .ok (padField c.flags.left fw s, i2 + 1)
+
+/-- The array machine from `(part_i, array_i)` with the output accumulated so far. -/
+def fmtArrayGo (h : Host) (arr : List Val) : List Part → Nat → List Char → Except Err (List Char)
+  | [], i, acc =>
+    if i < arr.length then .error (.tooMany i arr.length) else .ok acc
+  | .lit s :: ps, i, acc => fmtArrayGo h arr ps i (acc ++ s)
+  | .code c :: ps, i, acc =>
+    match stepArray h c arr i with
+    | .error e => .error e
+    | .ok (s, i') => fmtArrayGo h arr ps i' (acc ++ s)
+
+/-! ## Argument consumption: objects -/
+
+def lookupField (o : List (List Char × Val)) (k : List Char) : Option Val :=
+  match o with
+  | [] => none
+  | (k', v) :: r => if k' = k then some v else lookupField r k
+
+/-- One directive of `do_std_format_codes_object_1` + `object_2`. -/
+def stepObject (h : Host) (c : Code) (o : List (List Char × Val)) : Except Err (List Char) :=
+  match c.fw with
+  | some .ext => .error .objStarWidth
+  | fwS =>
+    let fw := match fwS with
+      | some (.inline v) => v
+      | _ => 0
+    match c.prec with
+    | some .ext => .error .objStarPrec
+    | precS =>
+      let prec := match precS with
+        | some (.inline v) => v
+        | _ => 0
+      if c.conv = .pct then .ok (padField c.flags.left fw ['%'])
+      else
+        match c.mkey with
+        | none => .error .objNeedKey
+        | some k =>
+          match lookupField o k with
+          | none => .error (.objMissingField k)
+          | some item =>
+            match renderCode h c fw prec item with
+            | .error e => .error e
+            | .ok s => .ok (padField c.flags.left fw s)
+
+def fmtObjectGo (h : Host) (o : List (List Char × Val)) : List Part → List Char → Except Err (List Char)
+  | [], acc => .ok acc
+  | .lit s :: ps, acc => fmtObjectGo h o ps (acc ++ s)
+  | .code c :: ps, acc =>
+    match stepObject h c o with
+    | .error e => .error e
+    | .ok s => fmtObjectGo h o ps (acc ++ s)
+
+/-! ## `do_std_format` -/
+
+inductive Vals where
+  | arr (l : List Val)
+  | obj (l : List (List Char × Val))
+  | one (v : Val)
+deriving Repr
+
+/-- `std.format(f, vals)` / `f % vals` -/
+def format (h : Host) (f : Val) (vals : Vals) : Except Err (List Char) :=
+  match f with
+  | .str s =>
+    match parseFormat s with
+    | .error e => .error (.parse e)
+    | .ok parts =>
+      match vals with
+      | .arr l => fmtArrayGo h l parts 0 []
+      | .obj o => fmtObjectGo h o parts []
+      | .one v => fmtArrayGo h [v] parts 0 []
+  | v => .error (.fmtNotString (typeOf v))
+
+/-! ## Driver -/
+
+def utf8DecodeAux : Nat → List Nat → List Char → List Char
+  | 0, _, acc => acc.reverse
+  | _, [], acc => acc.reverse
+  | fuel + 1, b :: rest, acc =>
+    if b < 0x80 then utf8DecodeAux fuel rest (Char.ofNat b :: acc)
+    else if b < 0xE0 then
+      match rest with
+      | c1 :: r => utf8DecodeAux fuel r (Char.ofNat ((b % 32) * 64 + c1 % 64) :: acc)
+      | _ => acc.reverse
+    else if b < 0xF0 then
+      match rest with
+      | c1 :: c2 :: r =>
+        utf8DecodeAux fuel r (Char.ofNat ((b % 16) * 4096 + (c1 % 64) * 64 + c2 % 64) :: acc)
+      | _ => acc.reverse
+    else
+      match rest with
+      | c1 :: c2 :: c3 :: r =>
+        utf8DecodeAux fuel r
+          (Char.ofNat ((b % 8) * 262144 + (c1 % 64) * 4096 + (c2 % 64) * 64 + c3 % 64) :: acc)
+      | _ => acc.reverse
+
+def utf8Decode (bs : List Nat) : List Char := utf8DecodeAux bs.length bs []
+
+def encodeChars (s : List Char) : String := hexEnc (s.flatMap (fun c => utf8EncodeChar c.toNat))
+
+def decodeHexStr (s : String) : Option (List Char) := (hexDecode s).map utf8Decode
+
+def parseHexNat (s : String) : Option Nat :=
+  s.toList.foldl (fun a c => match a, hexVal c with
+    | some a, some d => some (a * 16 + d)
+    | _, _ => none) (some 0)
+
+def hex16 (n : Nat) : String :=
+  String.ofList ((List.range 16).reverse.map (fun i => hexDigit (n / 16 ^ i % 16)))
+
+def parseVal (tok : String) : Option Val :=
+  match tok.splitOn ":" with
+  | ["n", b] => if b.length = 16 then (parseHexNat b).map Val.num else none
+  | ["s", hx] => (decodeHexStr hx).map Val.str
+  | ["o", ty, _src, rend] => (decodeHexStr rend).map (Val.other ty)
+  | _ => none
+
+structure Req where
+  vals : List Val := []
+  fields : List (List Char × Val) := []
+  table : List (String × String) := []
+
+def parseRest : List String → Req → Option Req
+  | [], r => some { r with vals := r.vals.reverse, fields := r.fields.reverse }
+  | a :: rest, r =>
+    if a.startsWith "H:" then
+      match (a.drop 2).toString.splitOn "=" with
+      | [k, v] => parseRest rest { r with table := (k, v) :: r.table }
+      | _ => none
+    else if a.startsWith "v:" then
+      match parseVal (a.drop 2).toString with
+      | some v => parseRest rest { r with vals := v :: r.vals }
+      | none => none
+    else if a.startsWith "k:" then
+      match (a.drop 2).toString.splitOn "=" with
+      | [k, v] =>
+        match decodeHexStr k, parseVal v with
+        | some k, some v => parseRest rest { r with fields := (k, v) :: r.fields }
+        | _, _ => none
+      | _ => none
+    else none
+
+def tableHost (t : List (String × String)) : Host where
+  fixed ab p := (t.lookup s!"F:{hex16 ab}:{p}").bind decodeHexStr
+  exp ab p := (t.lookup s!"E:{hex16 ab}:{p}").bind decodeHexStr
+  disp ab := (t.lookup s!"D:{hex16 ab}").bind decodeHexStr
+  log10floor ab := (t.lookup s!"L:{hex16 ab}").bind String.toInt?
+  numStr b := (t.lookup s!"S:{hex16 b}").bind decodeHexStr
+
+def showPErr : PErr → String
+  | .truncated => "truncated"
+  | .widthTooLarge => "widthTooLarge"
+  | .precTooLarge => "precTooLarge"
+  | .missingPrecDigits => "missingPrecDigits"
+  | .invalidConv c => s!"invalidConv:{c.toNat}"
+  | .fuel => "modelFuel"
+
+def showErr : Err → String
+  | .parse e => "err " ++ showPErr e
+  | .notEnough g => s!"err notEnough:{g}"
+  | .tooMany e g => s!"err tooMany:{e}:{g}"
+  | .precNotNumber ty => s!"err precNotNumber:{ty}"
+  | .precInvalid => "err precInvalid"
+  | .widthNotNumber ty => s!"err widthNotNumber:{ty}"
+  | .widthInvalid => "err widthInvalid"
+  | .needNumber k ty => s!"err needNumber:{k}:{ty}"
+  | .charLen n => s!"err charLen:{n}"
+  | .charBadCodepoint => "err charBadCodepoint"
+  | .charBadType ty => s!"err charBadType:{ty}"
+  | .objStarWidth => "err objStarWidth"
+  | .objStarPrec => "err objStarPrec"
+  | .objNeedKey => "err objNeedKey"
+  | .objMissingField k => "err objMissingField:" ++ encodeChars k
+  | .fmtNotString ty => s!"err fmtNotString:{ty}"
+  | .hostPanic n => s!"panic site{n}"
+  | .needHost k b p =>
+    if k = 'F' ∨ k = 'E' then s!"needhost {hex16 b} {k}:{p}" else s!"needhost {hex16 b} {k}"
+
+/-- `fmt render via=<fmt|pct> f=<val> arr|obj|one <v:..|k:..|H:..>...` -/
+def handleRender (args : List String) : Option String :=
+  match args with
+  | via :: f :: shape :: rest =>
+    if via ≠ "via=fmt" ∧ via ≠ "via=pct" then none
+    else if !f.startsWith "f=" then none
+    else
+      match parseVal (f.drop 2).toString, parseRest rest {} with
+      | some fv, some r =>
+        let h := tableHost r.table
+        let vals : Option Vals :=
+          if shape = "arr" then some (.arr r.vals)
+          else if shape = "obj" then some (.obj r.fields)
+          else if shape = "one" then
+            match r.vals with
+            | [.other ty s] => if ty = "array" ∨ ty = "object" then none else some (.one (.other ty s))
+            | [v] => some (.one v)
+            | _ => none
+          else none
+        match vals with
+        | none => none
+        | some vals =>
+          match format h fv vals with
+          | .ok s => some ("ok " ++ encodeChars s)
+          | .error e => some (showErr e)
+      | _, _ => none
+  | _ => none
+
+/-- `fmt <sub> <args...>` : one canonical answer line, or `none` for a malformed request. -/
+def handle (args : List String) : Option String :=
+  match args with
+  | "render" :: rest => handleRender rest
+  | _ => none
 
 end Rsj.Format
